@@ -433,6 +433,31 @@ class WorldGen:
             self.sess(lines, 2, 1, sid, cache="keep")
         return {"kind": "straddle", "lines": lines}
 
+    def partial(self):
+        """the requester's head lies INSIDE a multi-command segment of the responder (case 2 of find_needed_segments
+        with a partial entry), also below a fork"""
+        r = self.r
+        lines = ["world 4", "init 0 %d 8" % self.nn()]
+        sid = r.range(1, 1000)
+        self.acts(lines, 0, r.choice([5, 30, 70]), prio=0)
+        sid += 1
+        self.sess(lines, 1, 0, sid, cache="keep")                 # client 1: a prefix
+        self.acts(lines, 0, r.choice([3, 40, 120]), prio=0)
+        for _ in range(3):
+            sid += 1
+            self.sess(lines, 2, 0, sid, cache="keep")             # client 2: everything, in larger batches
+        if r.chance(1, 2):
+            self.acts(lines, 1, r.choice([1, 2]), prio=1)          # a fork below client 2's segment tip
+        sid += 1
+        self.sess(lines, 1, 2, sid, cache=r.choice(["keep", "fresh"]))   # client 1's head is inside client 2's segment
+        sid += 1
+        self.sess(lines, 3, 2, sid, cache="keep", maxpolls=1)
+        sid += 1
+        self.sess(lines, 3, 1, sid, cache="keep")
+        sid += 1
+        self.sess(lines, 2, 1, sid, cache="keep")
+        return {"kind": "partial", "lines": lines}
+
     def overflow(self):
         """Commands above MAX_COMMAND_LENGTH: a response that exceeds MAX_SYNC_MESSAGE_SIZE."""
         r = self.r
